@@ -552,6 +552,10 @@ def check_case(ctx, case):
         from harness.props_ext import c19_pipe
 
         return c19_pipe.check(ctx, case)
+    if kind in ("grad", "gdiff"):
+        from harness.props_ext import c19_gradient
+
+        return c19_gradient.check(ctx, case)
     if kind == "ovseq":
         from harness.props_ext import c19_seq
 
@@ -1149,6 +1153,12 @@ def search(ctx):
     t0 = _time.time()
     c19_pipe.run(ctx)
     stats["t.ovpipe_s"] = round(_time.time() - t0, 1)
+    # gradient / diff block plans (Props/C19Gradient.lean; grd.*)
+    from harness.props_ext import c19_gradient
+
+    t0 = _time.time()
+    c19_gradient.run(ctx)
+    stats["t.gradient_s"] = round(_time.time() - t0, 1)
 
 
 # =========================================================================== targeted search
